@@ -26,7 +26,7 @@ from vc.runner import native_run
 TIMEOUT = {"quick": 10000, "thorough": 60000}
 REN = {"a": "views", "b": "likes", "s": "title", "t": "content", "x": "rating", "f": "public"}
 ORM_COLS = {"views": [None, -1, 0, 1, 2, 7], "likes": [None, -2, 0, 1, 3], "rating": [None, -1.5, -0.5, 0.5, 1.5, 2.0],
-            "title": [None, "", "a", "A", "ab", "o'r", "%", "_", "a%b", "xaby"], "content": [None, "", "a", "b", "%", "ab"],
+            "title": [None, "", "a", "A", "ab", "o'r", "%", "_", "a%b", "xaby", " a", "a ", " a b "], "content": [None, "", "a", "b", "%", "ab"],
             "public": [None, False, True]}
 
 
